@@ -50,13 +50,14 @@ CACHE_SIZES = (2, 3, 4)
 WARM = ("twice", "prefix", "mid")
 PREFIX_DISPATCHES = 2
 MID_DISPATCHES = 60
-N_QUICK, N_THOROUGH = 3, 8
+N_QUICK, N_THOROUGH = 2, 5
 MAX_DISPATCH = 3000
 
 DATA = 0x2000
 
-# (name, source, initial registers (a string value names a label), tier flag: 2 = quick on both backends,
-# 1 = quick on the python backend only (gcc compiles every new block: ~2 s on a loaded machine), 0 = thorough only)
+# (name, source, initial registers (a string value names a label), (backends in quick, backends in thorough)) with
+# p = python, g = gcc. The gcc backend runs the C compiler for every new block (about 2 s of CPU per block when the
+# machine is loaded), which bounds the number of program/block-length combinations a tier can afford.
 PROGRAMS = [
     ("straight", """
 main:
@@ -69,10 +70,10 @@ main:
     ROL EAX, 5
     MOV DWORD PTR [EDI+4], EAX
     RET
-""", {"EBX": 0x1234, "ECX": 0x55, "EDI": DATA}, 2),
+""", {"EBX": 0x1234, "ECX": 0x55, "EDI": DATA}, ("p", "pg")),
     ("count_loop", """
 main:
-    MOV ECX, 5
+    MOV ECX, 3
     XOR EAX, EAX
 loop:
     IMUL EAX, EAX, 3
@@ -80,7 +81,7 @@ loop:
     DEC ECX
     JNZ loop
     RET
-""", {}, 2),
+""", {}, ("", "pg")),
     ("self_loop", """
 main:
     LEA EAX, DWORD PTR [EAX+EAX*2+1]
@@ -88,7 +89,7 @@ main:
     DEC ECX
     JNZ main
     RET
-""", {"ECX": 4, "EAX": 2}, 2),
+""", {"ECX": 3, "EAX": 2}, ("p", "pg")),
     ("mid_jump_back", """
 main:
     MOV ECX, 3
@@ -99,12 +100,11 @@ mid:
     DEC ECX
     JNZ mid
     RET
-""", {}, 2),
+""", {}, ("pg", "pg")),
     ("nested_calls", """
 main:
     MOV EAX, 1
     CALL f
-    ADD EAX, 0x10
     CALL f
     RET
 f:
@@ -115,10 +115,10 @@ f:
 g:
     XOR EAX, 0x5A
     RET
-""", {}, 2),
+""", {}, ("pg", "pg")),
     ("cond_both_ways", """
 main:
-    MOV ECX, 6
+    MOV ECX, 4
     XOR EAX, EAX
 loop:
     TEST ECX, 1
@@ -132,7 +132,7 @@ next:
     DEC ECX
     JNZ loop
     RET
-""", {}, 2),
+""", {}, ("p", "pg")),
     ("nested_loops", """
 main:
     XOR EAX, EAX
@@ -148,7 +148,7 @@ inner:
     DEC EDX
     JNZ outer
     RET
-""", {}, 1),
+""", {}, ("", "p")),
     ("mem_loop", """
 main:
     MOV ECX, 4
@@ -161,7 +161,7 @@ fill:
     JNZ fill
     MOV DWORD PTR [EDI], EAX
     RET
-""", {"EDI": DATA}, 1),
+""", {"EDI": DATA}, ("", "p")),
     ("rep_movs", """
 main:
     MOV ECX, 5
@@ -170,7 +170,7 @@ main:
     ADD EAX, ECX
     ADD EAX, ESI
     RET
-""", {"ESI": DATA + 2, "EDI": DATA + 0x20, "EBX": DATA}, 2),
+""", {"ESI": DATA + 2, "EDI": DATA + 0x20, "EBX": DATA}, ("p", "pg")),
     ("push_pop_loop", """
 main:
     MOV ECX, 3
@@ -187,7 +187,7 @@ down:
     DEC ECX
     JNZ down
     RET
-""", {"EAX": 7}, 1),
+""", {"EAX": 7}, ("", "p")),
     ("fallthrough_chain", """
 main:
     XOR EAX, EAX
@@ -204,7 +204,7 @@ bad:
     MOV EAX, 0xDEAD
 out:
     RET
-""", {}, 2),
+""", {}, ("", "pg")),
     ("forward_into_middle", """
 main:
     XOR EAX, EAX
@@ -221,7 +221,7 @@ tail_mid:
     JMP tail
 out:
     RET
-""", {}, 1),
+""", {}, ("", "p")),
     ("call_in_loop", """
 main:
     MOV ECX, 3
@@ -235,7 +235,7 @@ loop:
 f:
     IMUL EAX, EAX, 7
     RET
-""", {}, 1),
+""", {}, ("", "p")),
     ("indirect", """
 main:
     MOV ECX, 2
@@ -256,7 +256,7 @@ f1:
 f2:
     SHL EAX, 4
     RET
-""", {"EDX": "f1", "EBX": "f2", "ESI": "fin"}, 1),
+""", {"EDX": "f1", "EBX": "f2", "ESI": "fin"}, ("", "p")),
     ("fault_store_runs_off_page", """
 main:
     MOV ECX, 6
@@ -265,11 +265,10 @@ loop:
     MOV DWORD PTR [EDI], EAX
     ADD EDI, 4
     ROL EAX, 8
-    INC EDX
     DEC ECX
     JNZ loop
     RET
-""", {"EDI": DATA + 0x30}, 2),
+""", {"EDI": DATA + 0x38}, ("pg", "pg")),
     ("fault_load_unmapped", """
 main:
     MOV EDX, 0x21
@@ -277,7 +276,7 @@ main:
     MOV EAX, DWORD PTR [EBX]
     ADD EDX, 1
     RET
-""", {"EBX": 0x5000}, 2),
+""", {"EBX": 0x5000}, ("p", "pg")),
     ("div_until_zero", """
 main:
     MOV ECX, 3
@@ -288,7 +287,7 @@ loop:
     DIV ECX
     ADD EBX, EAX
     JMP loop
-""", {}, 2),
+""", {}, ("", "pg")),
     ("loop_instr", """
 main:
     MOV ECX, 4
@@ -298,7 +297,7 @@ l:
     ROL EAX, 3
     LOOP l
     RET
-""", {}, 1),
+""", {}, ("", "p")),
     ("long_straight", """
 main:
     MOV EAX, 1
@@ -318,7 +317,7 @@ main:
     ADD EAX, 0x7
     SUB EBX, EAX
     RET
-""", {}, 1),
+""", {}, ("", "p")),
     ("head_after_middle", """
 main:
     MOV ECX, 2
@@ -331,7 +330,7 @@ body_mid:
     DEC ECX
     JNZ body
     RET
-""", {"EAX": 5}, 2),
+""", {"EAX": 5}, ("", "pg")),
     ("cmov_setcc", """
 main:
     MOV ECX, 3
@@ -345,7 +344,7 @@ l:
     DEC ECX
     JNZ l
     RET
-""", {"EDX": 9}, 1),
+""", {"EDX": 9}, ("", "p")),
     ("string_loop", """
 main:
     MOV ECX, 4
@@ -356,7 +355,7 @@ l:
     LOOP l
     MOV EAX, DWORD PTR [EBX+0x10]
     RET
-""", {"ESI": DATA + 4, "EDI": DATA + 0x10, "EBX": DATA}, 1),
+""", {"ESI": DATA + 4, "EDI": DATA + 0x10, "EBX": DATA}, ("", "p")),
     ("recursion", """
 main:
     MOV ECX, 4
@@ -372,7 +371,7 @@ fact:
     CALL fact
 done:
     RET
-""", {}, 1),
+""", {}, ("", "p")),
     ("restart_once", """
 main:
     ADD EAX, 0x31
@@ -383,7 +382,7 @@ main:
     JMP main
 out:
     RET
-""", {"EAX": 3}, 1),
+""", {"EAX": 3}, ("", "p")),
     ("jecxz_skip", """
 main:
     MOV EAX, 2
@@ -395,7 +394,7 @@ l:
 out:
     ADD EAX, 1
     RET
-""", {"ECX": 3}, 0),
+""", {"ECX": 3}, ("", "p")),
     ("two_callers", """
 main:
     CALL a
@@ -412,7 +411,7 @@ b:
 c:
     LEA EAX, DWORD PTR [EAX+EAX*8+2]
     RET
-""", {}, 0),
+""", {}, ("", "p")),
     ("xchg_mem_loop", """
 main:
     MOV ECX, 3
@@ -424,7 +423,7 @@ l:
     DEC ECX
     JNZ l
     RET
-""", {"EDI": DATA + 8, "EAX": 0x77}, 0),
+""", {"EDI": DATA + 8, "EAX": 0x77}, ("", "p")),
     ("switch", """
 main:
     MOV ECX, 3
@@ -444,14 +443,14 @@ next:
     DEC ECX
     JNZ l
     RET
-""", {}, 0),
+""", {}, ("", "p")),
     ("fault_ret_to_unmapped", """
 main:
     MOV EAX, 5
     PUSH 0x7000
     ADD EAX, 1
     RET
-""", {}, 0),
+""", {}, ("", "p")),
     ("byte_regs", """
 main:
     MOV ECX, 3
@@ -463,7 +462,7 @@ l:
     DEC ECX
     JNZ l
     RET
-""", {"EAX": 0x1234}, 0),
+""", {"EAX": 0x1234}, ("", "p")),
 ]
 
 _mods = {}
@@ -485,7 +484,7 @@ def program_backends(quick):
     out = []
     for pi, p in enumerate(PROGRAMS):
         for backend in BACKENDS:
-            if not quick or p[3] == 2 or (p[3] == 1 and backend == "python"):
+            if backend[0] in p[3][0 if quick else 1]:
                 out.append((pi, backend))
     return out
 
@@ -625,19 +624,31 @@ def judge(prog, backend, cfg, get):
 
 
 def work(shard):
-    """shard = (program index, backend, n, [config indexes]) -> [(config index, run summary)]."""
+    """shard = (program index, backend, n, [config indexes]) -> ([(config index, run summary)], cost), or
+    ("precompile", program index, jit_maxline, block address): translate one block with the gcc backend so that the
+    compiler runs of a program are spread over the workers (the block lands in the on-disk cache miasm keeps in
+    $TMPDIR/miasm_cache, private to this check run, where the measured runs find it)."""
     import resource
     import time
-    _load()
-    pi, backend, n, idxs = shard
-    cfgs = configs(n)
+    m = _load()
     t0 = time.time()
     c0 = time.process_time()
     r0 = resource.getrusage(resource.RUSAGE_CHILDREN)
-    out = [(ci, run_config(PROGRAMS[pi], backend, cfgs[ci])) for ci in idxs]
+    if shard[0] == "precompile":
+        _, pi, ml, addr = shard
+        code, labels, offs, regs = _prepare(PROGRAMS[pi])
+        jit = m["C"].fresh_jitter(ARCH, "gcc", ml, 0)
+        m["J"].setup(jit, code, regs=regs)
+        jit.jit.disasm_and_jit_block(addr, jit.vm)
+        out = []
+        backend = "gcc"
+    else:
+        pi, backend, n, idxs = shard
+        cfgs = configs(n)
+        out = [(ci, run_config(PROGRAMS[pi], backend, cfgs[ci])) for ci in idxs]
     r1 = resource.getrusage(resource.RUSAGE_CHILDREN)
     cost = (time.time() - t0, time.process_time() - c0, r1.ru_utime + r1.ru_stime - r0.ru_utime - r0.ru_stime)
-    return out, cost
+    return out, cost, backend
 
 
 def run(ctx):
@@ -646,25 +657,49 @@ def run(ctx):
     n = N_QUICK if ctx.quick else N_THOROUGH
     pairs = program_backends(ctx.quick)
     cfgs = configs(n)
-    # shard by (program, backend, jit_maxline value): the configurations sharing a block length share the blocks the
-    # gcc backend has to compile (each new block costs a compiler run); the single-step reference (ml=1, me=1) is one
-    # of the enumerated configurations
-    shards = []
+    index = {cfg: ci for ci, cfg in enumerate(cfgs)}
+    gcc_progs = [pi for pi, b in pairs if b == "gcc"]
+    # phase A: which blocks does each (program, block length) need?  Both backends share the disassembly logic
+    # (jitcore.py), and the python backend returns to the dispatcher after every block, so the dispatch trace of its
+    # cold run with that block length lists every block start.  These runs are ordinary python configurations.
+    ml_cfgs = [()] + [(("ml", v),) for v in range(1, n + 1)]
+    shards_a = [(pi, "python", n, [index[c]]) for pi in gcc_progs for c in ml_cfgs]
+    res_a = ctx.pmap(work, shards_a)
+    done = set()
+    shards_b = []
+    for sh, (res, _, _) in zip(shards_a, res_a):
+        for ci, summ in res:
+            done.add((sh[0], "python", ci))
+            ml = dict(cfgs[ci]).get("ml", 50)
+            for addr in sorted(set(summ["dispatch"])):
+                if addr != _load()["J"].END:
+                    shards_b.append(("precompile", sh[0], ml, addr))
+    # phase B: one compiler run per shard, together with the remaining python configurations
     for (pi, backend) in pairs:
+        if backend != "python":
+            continue
+        todo = [ci for ci in range(len(cfgs)) if (pi, "python", ci) not in done]
+        for k in range(0, len(todo), 12):
+            shards_b.append((pi, "python", n, todo[k:k + 12]))
+    res_b = ctx.pmap(work, shards_b)
+    # phase C: the gcc configurations, grouped by block length
+    shards_c = []
+    for pi in gcc_progs:
         groups = {}
         for ci, cfg in enumerate(cfgs):
             groups.setdefault(dict(cfg).get("ml", 50), []).append(ci)
         for ml in sorted(groups):
             g = groups[ml]
-            step = len(g) if backend == "gcc" else 24
-            for k in range(0, len(g), step):
-                shards.append((pi, backend, n, g[k:k + step]))
-    results = ctx.pmap(work, shards)
+            for k in range(0, len(g), 10):
+                shards_c.append((pi, "gcc", n, g[k:k + 10]))
+    res_c = ctx.pmap(work, shards_c)
+    shards = shards_a + shards_b + shards_c
+    results = res_a + res_b + res_c
     table = {}
     cost = {b: [0.0, 0.0, 0.0] for b in BACKENDS}
-    for sh, (res, c) in zip(shards, results):
+    for sh, (res, c, backend) in zip(shards, results):
         for k in range(3):
-            cost[sh[1]][k] += c[k]
+            cost[backend][k] += c[k]
         for ci, summ in res:
             table.setdefault((sh[0], sh[1]), {})[cfgs[ci]] = summ
     cov = {"evaluations": 0, "distinct_nontrivial": 0, "configs_with_eviction": 0, "configs_with_warm_start": 0,
@@ -708,6 +743,7 @@ def run(ctx):
     cov["per_backend"] = per_backend
     cov["cost_s_wall_cpu_compiler"] = {b: [round(x, 1) for x in v] for b, v in cost.items()}
     cov["shards"] = len(shards)
+    cov["gcc_blocks_precompiled"] = sum(1 for sh in shards_b if sh[0] == "precompile")
     cov["reference_runs"] = ref_terms
     cov["samples"] = samples
     cov["exhaustive"] = True
